@@ -348,6 +348,12 @@ menu! {
     BUint, BInt : 1, 2, 3, 5, 8, 64, 128;
 }
 
+/// the menu as a process-wide constant (the interleaved-tasks executor looks types up by name from any thread)
+pub fn global_menu() -> &'static [Box<dyn TyObj>] {
+    static MENU: std::sync::OnceLock<Vec<Box<dyn TyObj>>> = std::sync::OnceLock::new();
+    MENU.get_or_init(menu)
+}
+
 pub fn by_name<'a>(menu: &'a [Box<dyn TyObj>], name: &str) -> Option<&'a dyn TyObj> {
     menu.iter().find(|t| t.name() == name).map(|b| &**b)
 }
